@@ -225,9 +225,11 @@ pub struct World {
     pub wasm_admin: Option<String>,
 }
 
-pub const ACCOUNTS: [&str; 16] = [
+pub const ACCOUNTS: [&str; 23] = [
     "creator", "creator2", "buyer1", "stranger", "governance", "spender1", "oper1", "wladmin1", "wladmin2", "wladmin3",
     "wlmember", "spadmin", "spadmin2", "member1", "member2", "nonmember",
+    // the secondary addresses a configuration can carry, each its own account
+    "payer1", "payaddr", "royalty1", "devfee1", "wlowner", "groupadmin", "airadmin",
 ];
 
 /// the same id for the same string in every world, so cases are comparable across rows
@@ -375,6 +377,61 @@ fn puppet() -> Box<dyn Contract<Empty>> {
     Box::new(ContractWrapper::new(exec, inst, query))
 }
 
+// ------------------------------------------------------------------ minter creation with every secondary address distinct
+pub const PAYER: &str = "payer1"; // sends (and pays for) CreateMinter: becomes the minter's wasm admin
+pub const PAYADDR: &str = "payaddr"; // init_msg.payment_address (vending and open-edition minters)
+pub const ROYALTY: &str = "royalty1"; // collection royalty_info.payment_address
+pub const DEVFEE: &str = "devfee1"; // open-edition factory params: dev_fee_address
+
+/// As w_factory::setup_minter_with, but nobody doubles: CreateMinter is SENT by PAYER for a
+/// collection whose creator is CREATOR, proceeds go to PAYADDR, royalties to ROYALTY, the
+/// open-edition developer fee to DEVFEE.  The only account that may hold a reserved role on
+/// the minter is CREATOR.
+pub fn setup_minter_c05(kind: MinterKind, tweak: impl FnOnce(&mut FParams, &mut CreateReq)) -> Result<MinterWorld, String> {
+    let mut app = chain::new_app();
+    let sg721_code_id = app.store_code(chain::sg721_base());
+    let minter_code_id = app.store_code(kind.code());
+    let fk = kind.factory();
+    let factory_code_id = app.store_code(fk.code());
+    let mut params = default_params(fk, minter_code_id, &[sg721_code_id]);
+    params.dev_fee_address = DEVFEE.to_string();
+    let mut req = CreateReq::standard(fk, sg721_code_id, &params.creation_fee);
+    tweak(&mut params, &mut req);
+    chain::mint_coins(&mut app, PAYER, 1_000_000_000_000_000, NATIVE);
+    let factory = instantiate_factory(&mut app, fk, factory_code_id, &params)?;
+    let mut msg = create_msg_json(&app, fk, CREATOR, &req);
+    if matches!(fk, FactoryKind::Vending | FactoryKind::OpenEdition) {
+        msg["create_minter"]["init_msg"]["payment_address"] = json!(PAYADDR);
+    }
+    msg["create_minter"]["collection_params"]["info"]["royalty_info"]["payment_address"] = json!(ROYALTY);
+    let funds: Vec<cosmwasm_std::Coin> = req.funds.iter().map(|(d, a)| coin(*a, d.clone())).collect();
+    let res = exec_json(&mut app, PAYER, &factory, &msg, &funds)?;
+    let addrs = instantiated_addrs(&res);
+    if addrs.len() < 2 {
+        return Err(format!("CreateMinter instantiated {} contracts", addrs.len()));
+    }
+    Ok(MinterWorld {
+        app,
+        kind,
+        factory,
+        minter: addrs[0].clone(),
+        collection: addrs[1].clone(),
+        sg721_code_id,
+        minter_code_id,
+        factory_code_id,
+        params,
+    })
+}
+
+fn secondary_roles() -> Vec<(String, String)> {
+    vec![
+        ("payer-wasm-admin".to_string(), PAYER.to_string()),
+        ("payment-address".to_string(), PAYADDR.to_string()),
+        ("royalty-address".to_string(), ROYALTY.to_string()),
+        ("dev-fee-address".to_string(), DEVFEE.to_string()),
+    ]
+}
+
 // ------------------------------------------------------------------ states
 pub fn states(ck: CK, thorough: bool) -> Vec<&'static str> {
     match ck {
@@ -431,7 +488,7 @@ fn factory_world(kind: FactoryKind, state: &str) -> Result<World, String> {
     // the factory of the kind with its first minter variant's code; one minter already
     // created so that the world also holds a minter and a collection
     let mk = kind.minters()[0];
-    let mw = setup_minter_with(mk, |_, _| {})?;
+    let mw = setup_minter_c05(mk, |_, _| {})?;
     let mut app = mw.app;
     fund_all(&mut app);
     let mut aux = BTreeMap::new();
@@ -440,14 +497,15 @@ fn factory_world(kind: FactoryKind, state: &str) -> Result<World, String> {
     aux.insert("collection".into(), mw.collection.to_string());
     aux.insert("sg721_code".into(), mw.sg721_code_id.to_string());
     aux.insert("creation_fee".into(), mw.params.creation_fee.1.to_string());
-    let roles = vec![
+    let mut roles = secondary_roles();
+    roles.extend(vec![
         ("stranger".to_string(), "stranger".to_string()),
         ("buyer".to_string(), "buyer1".to_string()),
         ("governance".to_string(), GOV.to_string()),
         ("minter-contract".to_string(), mw.minter.to_string()),
         ("factory-itself".to_string(), mw.factory.to_string()),
         ("creator".to_string(), CREATOR.to_string()),
-    ];
+    ]);
     let (fac, min) = (mw.factory.clone(), mw.minter.clone());
     let mut w = World {
         app,
@@ -534,7 +592,7 @@ pub fn public_mint_json(k: MinterKind) -> Value {
 fn minter_world(kind: MinterKind, state: &str) -> Result<World, String> {
     let fk = kind.factory();
     let oe = fk == FactoryKind::OpenEdition;
-    let mw = setup_minter_with(kind, |_, r| {
+    let mw = setup_minter_c05(kind, |_, r| {
         if oe {
             // a counted edition with an end: BurnRemaining and UpdateEndTime both have a valid call
             r.num_tokens = Some(100);
@@ -551,6 +609,10 @@ fn minter_world(kind: MinterKind, state: &str) -> Result<World, String> {
         state: state.to_string(),
         target: mw.minter.clone(),
         roles: vec![
+            ("payer-wasm-admin".to_string(), PAYER.to_string()),
+            ("payment-address".to_string(), PAYADDR.to_string()),
+            ("royalty-address".to_string(), ROYALTY.to_string()),
+            ("dev-fee-address".to_string(), DEVFEE.to_string()),
             ("stranger".to_string(), "stranger".to_string()),
             ("buyer".to_string(), "buyer1".to_string()),
             ("new-creator".to_string(), "creator2".to_string()),
@@ -718,7 +780,7 @@ pub fn coll_instantiate_json(minter: &str, creator: &str) -> Value {
     json!({"name": "Collection", "symbol": "COL", "minter": minter,
         "collection_info": {"creator": creator, "description": "a collection", "image": "https://example.com/image.png",
             "external_link": "https://example.com/external.html", "explicit_content": false, "start_trading_time": null,
-            "royalty_info": {"payment_address": creator, "share": "0.1"}}})
+            "royalty_info": {"payment_address": ROYALTY, "share": "0.1"}}})
 }
 fn coll_mint_json(k: CollKind, id: &str, owner: &str) -> Value {
     json!({"mint": {"token_id": id, "owner": owner, "token_uri": format!("ipfs://tokens/{}", id), "extension": coll_ext(k)}})
@@ -743,7 +805,7 @@ fn freeze_info_json(k: CollKind) -> Value {
 fn coll_world(kind: CollKind, state: &str) -> Result<World, String> {
     // a real vending world; the collection under test is instantiated by the real minter
     // contract's address (the sender of an instantiate must be a contract) and owned by it
-    let mw = setup_minter_with(MinterKind::Vending, |_, _| {})?;
+    let mw = setup_minter_c05(MinterKind::Vending, |_, _| {})?;
     let mut app = mw.app;
     fund_all(&mut app);
     let code = app.store_code(kind.code());
@@ -760,6 +822,9 @@ fn coll_world(kind: CollKind, state: &str) -> Result<World, String> {
         state: state.to_string(),
         target: coll.clone(),
         roles: vec![
+            ("royalty-address".to_string(), ROYALTY.to_string()),
+            ("minter-payment-address".to_string(), PAYADDR.to_string()),
+            ("minter-payer".to_string(), PAYER.to_string()),
             ("stranger".to_string(), "stranger".to_string()),
             ("new-creator".to_string(), "creator2".to_string()),
             ("governance".to_string(), GOV.to_string()),
@@ -1070,7 +1135,7 @@ fn wl_world(kind: WlKind, state: &str) -> Result<World, String> {
     let mutable = state != "instantiated-immutable";
     let (msg, fee) = wl_instantiate_json(kind, start, end, 50_000_000, &["wladmin1", "wladmin2"], mutable);
     let funds = if fee > 0 { vec![coin(fee, NATIVE)] } else { vec![] };
-    let r = crate::util::catch(|| app.instantiate_contract(code, Addr::unchecked("wladmin1"), &msg, &funds, "wl", Some("wladmin1".to_string())));
+    let r = crate::util::catch(|| app.instantiate_contract(code, Addr::unchecked("wlowner"), &msg, &funds, "wl", Some("wlowner".to_string())));
     let wl = match r {
         Ok(Ok(a)) => a,
         Ok(Err(e)) => return Err(format!("{} instantiate: {:#}", kind.name(), e)),
@@ -1082,6 +1147,7 @@ fn wl_world(kind: WlKind, state: &str) -> Result<World, String> {
         state: state.to_string(),
         target: wl.clone(),
         roles: vec![
+            ("instantiator-wasm-admin".to_string(), "wlowner".to_string()),
             ("stranger".to_string(), "stranger".to_string()),
             ("member".to_string(), "wlmember".to_string()),
             ("buyer".to_string(), "buyer1".to_string()),
@@ -1102,7 +1168,8 @@ fn wl_world(kind: WlKind, state: &str) -> Result<World, String> {
     };
     w.aux.insert("start".into(), start.to_string());
     w.aux.insert("end".into(), end.to_string());
-    w.wasm_admin = Some("wladmin1".to_string());
+    // instantiated (and paid for) by an account that is on no admin list; it is the wasm admin
+    w.wasm_admin = Some("wlowner".to_string());
     let a12 = vec!["wladmin1".to_string(), "wladmin2".to_string()];
     let a23 = vec!["wladmin2".to_string(), "wladmin3".to_string()];
     if kind == WlKind::Immutable {
@@ -1208,8 +1275,8 @@ fn splits_world(with_admin: bool, state: &str) -> Result<World, String> {
     let group = instantiate_json(
         &mut app,
         gcode,
-        "governance",
-        &json!({"admin": "governance", "members": [{"addr": "member1", "weight": 1}, {"addr": "member2", "weight": 2}]}),
+        "groupadmin",
+        &json!({"admin": "groupadmin", "members": [{"addr": "member1", "weight": 1}, {"addr": "member2", "weight": 2}]}),
         "group",
     )?;
     let admin: Option<&str> = if with_admin { Some("spadmin") } else { None };
@@ -1221,6 +1288,7 @@ fn splits_world(with_admin: bool, state: &str) -> Result<World, String> {
         state: state.to_string(),
         target: splits.clone(),
         roles: vec![
+            ("group-admin".to_string(), "groupadmin".to_string()),
             ("stranger".to_string(), "stranger".to_string()),
             ("non-member".to_string(), "nonmember".to_string()),
             ("governance".to_string(), GOV.to_string()),
